@@ -69,4 +69,16 @@ def check(rep, tier, rng):
 
 
 def replay(rep, r):
+    if r.get("kind") == "declared-bound-dropped":
+        import re, t3
+        t3.build()
+        g = run_lines([t3.FRONT], ["gen d " + t3.hx(r["text"])])[0]
+        print("generate:", g[:80])
+        if not g.startswith("ok "):
+            return 0
+        text = bytes.fromhex(g[3:]).decode("utf-8", "replace")
+        still = [d for d in r.get("declarators", []) if re.search(r"\b%s: v\.read_\w+(::<[^>]*>)?\(None\)" % re.escape(d), text)
+                 or re.search(r"for %s(?:<Bytes>)? \{.*?Ok\(Self\(v\.read_\w+(::<[^>]*>)?\(None\)" % re.escape(d), text, re.S)]
+        print("declarators still decoded without their maximum:", still)
+        return 1 if still else 0
     return t2props.generic_replay(rep, r)
